@@ -48,6 +48,10 @@ package decoder
 //@ contract (*decoder.PathDecoder).SignatureAtPos$1 (node) (diags)
 //@   requires d != nil && d.pathCtx != nil && file != nil && 0 <= pos.Byte && pos.Byte <= len(file.Bytes)
 //@   loop 1 iter [C20] !(v.Range().ContainsPos(pos) || v.Range().End.Byte == pos.Byte)
+//@   ghost noComma after bytes.TrimRight#1 : string(callresult) != ","
+//@   ghost sawComma after bytes.TrimRight#1 : string(callresult) == ","
+//@   ensures [C20,name:argument-before-the-cursor] implies(signature != old(signature) && noComma && lastArgIdx < paramsLen, int(signature.ActiveParameter) == lastArgIdx)
+//@   ensures [C20,name:slot-after-the-comma] implies(signature != old(signature) && sawComma && lastArgIdx + 1 < paramsLen, int(signature.ActiveParameter) == lastArgIdx + 1)
 //@   ensures [C20] implies(signature != old(signature), fresh(signature) && isCall(node) && node.Range().ContainsPos(pos))
 //@   ensures [C20] implies(signature != old(signature), haskey(d.pathCtx.Functions, callOf(node).Name))
 //@   ensures [C20] implies(signature != old(signature) && len(signature.Parameters) > 0, int(signature.ActiveParameter) < len(signature.Parameters))
@@ -220,7 +224,7 @@ package decoder
 // ---- expressions of a body has self references active only if this body's schema says so, and nested
 // ---- bodies start from a context without them.
 //@ contract (*decoder.PathDecoder).referenceOriginsInBody (d, body, bodySchema) (origins, impliedOrigins)
-//@   loop 1 invariant [C10] implies(schema.ActiveSelfRefsFromContext(ctx), bodySchema.Extensions != nil && bodySchema.Extensions.SelfRefs)
+//@   loop 1 invariant [C10,claim] implies(schema.ActiveSelfRefsFromContext(ctx), bodySchema.Extensions != nil && bodySchema.Extensions.SelfRefs)
 //@   assert before invoke:ReferenceOrigins#1 : [C10] implies(schema.ActiveSelfRefsFromContext(arg0), bodySchema.Extensions != nil && bodySchema.Extensions.SelfRefs)
 
 // ---- C16/C02: documentation links are attached to exactly the dependency keys that selected the body: one
@@ -279,6 +283,8 @@ package decoder
 //@   assert before decoder.newExpression#3 : [C08] arg1 == elemExpr && arg2 == tuple.cons.Elems[i]
 //@   loop 2 iter [C08] elemExpr.Range().Start.Byte <= pos.Byte && !(elemExpr.Range().ContainsPos(pos) || elemExpr.Range().End.Byte == pos.Byte)
 //@ contract (decoder.functionExpr).CompletionAtPos (fe, ctx, pos) (result)
+//@   loop 1 invariant [C06,C08,claim] lastArgExpr == nil || lastArgExpr.Range().Start.Byte <= pos.Byte
+//@   assert before invoke:CompletionAtPos#2 : [C06,C08] elemExpr.Range().Start.Byte <= pos.Byte || elemExpr.Range().End.Byte == pos.Byte
 //@   loop 1 iter [C08] arg.Range().Start.Byte <= pos.Byte && !(arg.Range().ContainsPos(pos) || arg.Range().End.Byte == pos.Byte)
 
 // ---- C10/C12/C13: the i-th element of a tuple is interpreted with the i-th element constraint.
